@@ -279,6 +279,11 @@ RD(kind, res, pr) == [R0 EXCEPT !.left = "dpipe", !.body = B("ab.ba^"), !.mkind 
 PoolC13 == SetToSeqD(
   { RD(k, r, p) : k \in {"redirect", "redirect-rule"}, r \in {"r1", "r2", "al1"}, p \in {"none", "1", "-1"} }
   \cup { RD("redirect", r, p) : r \in {"r1"}, p \in {"10", "0", "x"} }
+  \* the ends of the i32 range, just outside it, and other spellings Rust's integer parser accepts or refuses
+  \cup { RD(k, "r1", "-2147483648") : k \in {"redirect", "redirect-rule"} }
+  \cup { RD("redirect-rule", "r2", "2147483647"), RD("redirect-rule", "r2", "-2147483647"), RD("redirect", "r1", "2147483648"),
+         RD("redirect-rule", "r1", "-2147483649"), RD("redirect-rule", "r1", "+1"), RD("redirect-rule", "r2", "01"),
+         RD("redirect", "r1", ""), RD("redirect-rule", "r2", "-0") }
   \cup { RD("redirect", r, "none") : r \in {"missing", "tpl", "perm", "fnjs"} }
   \cup { [RD(k, r, p) EXCEPT !.exc = TRUE] : k \in {"redirect", "redirect-rule"}, r \in {"r1", "r2"}, p \in {"none", "1"} }
   \* names in a prefix relation (r1 / r1.js), an exception with a priority suffix next to one without,
